@@ -336,4 +336,103 @@ example : ∃ T, Algo2.BddVariableSet_new_anonymous 3 = .ok T ∧
   have h3 : T.1 = 3 := by rw [hs.count]; rfl
   exact ⟨T, hT, (mk_sat_k_panics 192 T 1 #[2, 5] (by omega) 5 (by simp) (by omega)).2.1⟩
 
+/-! ### an a-priori bound: all operands are canonical, and a canonical array over `n` variables has at most `2^n + 1` nodes -/
+
+theorem ins_size_le' (n : Nat) : ∀ (fuel k : Nat) (f : (Nat → Bool) → Bool) (A : Arr),
+    (ins n fuel k f A).1.size + 1 ≤ A.size + 2 ^ fuel := by
+  intro fuel
+  induction fuel with
+  | zero => intro k f A; simp [ins]
+  | succ fuel ih =>
+    intro k f A
+    have h1 := ih (k + 1) (fun v => f (upd v k true)) A
+    have h2 := ih (k + 1) (fun v => f (upd v k false)) (ins n fuel (k + 1) (fun v => f (upd v k true)) A).1
+    have hp : 2 ^ (fuel + 1) = 2 ^ fuel + 2 ^ fuel := by rw [Nat.pow_succ]; omega
+    simp only [ins]
+    split
+    · simp only; omega
+    · split
+      · simp only; omega
+      · simp only [Array.size_push]; omega
+
+theorem canon_size_le' (n : Nat) (f : (Nat → Bool) → Bool) : (canon n f).size ≤ 2 ^ n + 1 := by
+  unfold canon
+  have h := ins_size_le' n n 0 f (mkTrue n)
+  have h2 : (mkTrue n).size = 2 := rfl
+  have h1 : (mkFalse n).size = 1 := rfl
+  rw [h2] at h
+  simp only
+  split
+  · rw [h1]; have : 0 < 2 ^ n := Nat.two_pow_pos n; omega
+  · omega
+
+theorem sem_size_le {n : Nat} {A : Arr} {f : (Nat → Bool) → Bool} (h : VS.Sem n A f) : A.size ≤ 2 ^ n + 2 := by
+  rw [h.eq]; have := canon_size_le' n f; omega
+
+theorem roundOK_of_sem {n : Nat} {R : Arr} {f : (Nat → Bool) → Bool} (hR : VS.Sem n R f) :
+    ∀ (xs : List Nat), (∀ x ∈ xs, x < n) → ∀ (acc : Arr) (g : (Nat → Bool) → Bool), VS.Sem n acc g →
+      RoundOK n (2 ^ n + 2) R xs acc := by
+  intro xs
+  induction xs with
+  | nil => intro _ _ _ _; trivial
+  | cons x t ih =>
+    intro hv acc g hg
+    have hx : x < n := hv x (by simp)
+    have hp := VS.sem_propagate hR x hx
+    have hstep := hg.apply hp Gen.or_ _ VS.or_consistent none (by simp)
+    exact ⟨sem_size_le hR, sem_size_le hg, sem_size_le hp, ih (fun y hy => hv y (by simp [hy])) _ _ hstep⟩
+
+theorem exactlyOK_of_sem (n : Nat) (vars : List Nat) (hv : ∀ x ∈ vars, x < n) : ∀ (k j : Nat) (R : Arr),
+    VS.Sem n R (fun v => decide (VS.cnt n vars v = j)) → ExactlyOK n (2 ^ n + 2) vars k R := by
+  intro k
+  induction k with
+  | zero => intro _ _ _; trivial
+  | succ k ih =>
+    intro j R hR
+    have hround := VS.sem_satRound hR vars hv (mkFalse n) _ (VS.sem_mkFalse n)
+    have hround' : VS.Sem n (VS.satRound n vars R (mkFalse n)) (fun v => decide (VS.cnt n vars v = j + 1)) :=
+      hround.congr (fun v => by simp only [Bool.false_or]; exact VS.any_flip_exact n vars hv j v)
+    exact ⟨roundOK_of_sem hR vars hv _ _ (VS.sem_mkFalse n), ih (j + 1) _ hround'⟩
+
+theorem upToOK_of_sem (n : Nat) (vars : List Nat) (hv : ∀ x ∈ vars, x < n) : ∀ (k j : Nat) (R : Arr),
+    VS.Sem n R (fun v => decide (VS.cnt n vars v ≤ j)) → UpToOK n (2 ^ n + 2) vars k R := by
+  intro k
+  induction k with
+  | zero => intro _ _ _; trivial
+  | succ k ih =>
+    intro j R hR
+    have hround := VS.sem_satRound hR vars hv R _ hR
+    have hround' : VS.Sem n (VS.satRound n vars R R) (fun v => decide (VS.cnt n vars v ≤ j + 1)) :=
+      hround.congr (fun v => VS.any_flip_upto n vars hv j v)
+    exact ⟨roundOK_of_sem hR vars hv _ _ hR, ih (j + 1) _ hround'⟩
+
+theorem pow_bound {n : Nat} (hn : n ≤ 15) : (2 ^ n + 2) * (2 ^ n + 2) + 2 ≤ 2 ^ 32 := by
+  have h : 2 ^ n ≤ 2 ^ 15 := Nat.pow_le_pow_right (by omega) hn
+  have : (2 ^ n + 2) * (2 ^ n + 2) ≤ (2 ^ 15 + 2) * (2 ^ 15 + 2) := Nat.mul_le_mul (by omega) (by omega)
+  omega
+
+/-- **unconditional form for sets of at most 15 variables**: no side condition on the model's run, fuel `3·(2^n+2)²` -/
+theorem mk_sat_exactly_k_eq_model_small (fuel : Nat) (T : VSet) (k : Nat) (vars : Array Nat) (hn : T.1 ≤ 15)
+    (hv : ∀ x ∈ vars.toList, x < T.1) (hfuel : 3 * ((2 ^ T.1 + 2) * (2 ^ T.1 + 2)) ≤ fuel) :
+    Algo2.BddVariableSet_mk_sat_exactly_k fuel T k vars = VS.mkSatExactlyK T.1 k vars.toList :=
+  mk_sat_exactly_k_eq_model fuel T k vars (by omega) hv (2 ^ T.1 + 2) (by have := Nat.two_pow_pos T.1; omega) (pow_bound hn) hfuel
+    (exactlyOK_of_sem T.1 vars.toList hv k 0 _ (VS.sem_allFalse T.1 vars.toList hv))
+
+theorem mk_sat_up_to_k_eq_model_small (fuel : Nat) (T : VSet) (k : Nat) (vars : Array Nat) (hn : T.1 ≤ 15)
+    (hv : ∀ x ∈ vars.toList, x < T.1) (hfuel : 3 * ((2 ^ T.1 + 2) * (2 ^ T.1 + 2)) ≤ fuel) :
+    Algo2.BddVariableSet_mk_sat_up_to_k fuel T k vars = VS.mkSatUpToK T.1 k vars.toList :=
+  mk_sat_up_to_k_eq_model fuel T k vars (by omega) hv (2 ^ T.1 + 2) (by have := Nat.two_pow_pos T.1; omega) (pow_bound hn) hfuel
+    (upToOK_of_sem T.1 vars.toList hv k 0 _
+      ((VS.sem_allFalse T.1 vars.toList hv).congr (fun v => by simp)))
+
+/-- … hence, without any side condition: "at most one of x0, x1, x3" over four variables, fuel `3·18²` -/
+example : ∃ T, Algo2.BddVariableSet_new_anonymous 4 = .ok T ∧
+    Algo2.BddVariableSet_mk_sat_up_to_k 972 T 1 #[3, 0, 1] =
+      .ok (canon 4 (fun v => decide (VS.cnt 4 [3, 0, 1] v ≤ 1))) := by
+  obtain ⟨T, hT, hs⟩ := new_anonymous_ok 4 (by decide)
+  have h4 : T.1 = 4 := by rw [hs.count]; rfl
+  refine ⟨T, hT, ?_⟩
+  rw [mk_sat_up_to_k_eq_model_small 972 T 1 #[3, 0, 1] (by omega) (by rw [h4]; decide) (by rw [h4]; decide), h4]
+  exact Props.C16.sat_up_to_k_canon 4 1 [3, 0, 1] (by decide)
+
 end B.AlgoEq2VS
